@@ -347,6 +347,8 @@ func Run(cs Case, c *vrt.Ctx) {
 		}
 		sortOpt := &ojg.Options{Sort: true}
 		sortOpt2 := &ojg.Options{Sort: true, Indent: 2}
+		omitNil := &ojg.Options{Sort: true, OmitNil: true}
+		omitEmpty := &ojg.Options{Sort: true, OmitEmpty: true, Indent: 1}
 		for _, w := range []struct {
 			name string
 			f    func(v any) string
@@ -357,6 +359,15 @@ func Run(cs Case, c *vrt.Ctx) {
 			{"sen.String(indent)", func(v any) string { return sen.String(v, sortOpt2) }},
 			{"pretty.JSON", func(v any) string { return pretty.JSON(v, sortOpt, 40.3) }},
 			{"pretty.SEN", func(v any) string { return pretty.SEN(v, sortOpt, 40.3) }},
+			// the options that leave members out decide per node kind, once for the simple and once
+			// for the gen form of every kind
+			{"oj.JSON(OmitNil)", func(v any) string { return oj.JSON(v, omitNil) }},
+			{"oj.JSON(OmitEmpty)", func(v any) string { return oj.JSON(v, omitEmpty) }},
+			{"sen.String(OmitNil)", func(v any) string { return sen.String(v, omitNil) }},
+			{"sen.String(OmitEmpty)", func(v any) string { return sen.String(v, omitEmpty) }},
+			{"pretty.JSON(OmitNil)", func(v any) string { return pretty.JSON(v, omitNil, 40.3) }},
+			{"pretty.JSON(OmitEmpty)", func(v any) string { return pretty.JSON(v, omitEmpty, 40.3) }},
+			{"pretty.SEN(OmitNil)", func(v any) string { return pretty.SEN(v, omitNil, 40.3) }},
 		} {
 			var a, b string
 			if pv, stack := vrt.Catch(func() { a, b = w.f(tree), w.f(gd) }); pv != nil {
